@@ -277,6 +277,9 @@ def run(repo, rep, tier):
     units.check_functions(repo, rep, fam)
     guards.check_functions(repo, rep, fam)
     effects.check_functions(repo, rep, fam)
+    # a finder must hand on the refusal of the routine it refines with (no substitute value when the interpolation finds no extremum / root)
+    from .c20 import r_swallow
+    r_swallow(repo, rep, mods={"Mercury", "Venus", "Earth", "Mars", "Jupiter", "Saturn", "Uranus", "Neptune"})
     # premise of the evaluator: Angle / Epoch operators mean what their names say and leave their operands alone
     from ..premises import operator_semantics
     operator_semantics(repo, rep)
